@@ -130,6 +130,56 @@ def rule_C(run, prog):
     run.obligation(rid, "AggregateBase.fc_factor", ok and not esc, key="product-over-modes",
                    message="the Franck-Condon factor must multiply one overlap <n1|D(shift difference)|n2> per mode "
                            "over all modes", loc=f.loc())
+    # the factor is a function of the two states' quantum numbers and mode shifts as they are now:
+    # every value returned is the product computed by this call (or a literal), and state kept on
+    # self between calls may only be keyed by values that determine the overlap
+    params = [a.arg for a in f.node.args.args if a.arg != "self"]
+
+    def _roots(expr, depth=0):
+        """attribute chains rooted at the parameters that an expression is computed from"""
+        out = set()
+        for n in ast.walk(expr):
+            if isinstance(n, ast.Attribute):
+                base = n
+                while isinstance(base, (ast.Attribute, ast.Subscript)):
+                    base = base.value
+                if isinstance(base, ast.Name) and base.id in params:
+                    out.add(norm(n))
+            elif isinstance(n, ast.Name) and n.id in params:
+                out.add(n.id)
+            elif isinstance(n, ast.Name) and depth < 4:
+                for b in walk_no_nested(f.node):
+                    if isinstance(b, ast.Assign) and any(isinstance(t_, ast.Name) and t_.id == n.id for t_ in b.targets):
+                        out |= _roots(b.value, depth + 1)
+        # keep the longest chains only ('state1.index' subsumes 'state1')
+        return {c for c in out if not any(o != c and o.startswith(c + ".") for o in out)}
+    memo = []
+    for n in walk_no_nested(f.node):
+        if isinstance(n, ast.Assign) and isinstance(n.targets[0], ast.Subscript):
+            b = n.targets[0].value
+            if isinstance(b, ast.Attribute) and isinstance(b.value, ast.Name) and b.value.id == "self":
+                roots = _roots(n.targets[0].slice)
+                ident = sorted(c for c in roots if not (c.endswith(".vsig") or c.endswith(".shift") or ".vsig[" in c))
+                memo.append((b.attr, norm(n.targets[0].slice), ident, n))
+    rets = [n for n in walk_no_nested(f.node) if isinstance(n, ast.Return)]
+    last = f.node.body[-1]
+    sound_memos = {a for a, _, i_, _ in memo} - {a for a, _, i_, _ in memo if i_}
+
+    def _from_sound_memo(e):
+        return isinstance(e, ast.Subscript) and isinstance(e.value, ast.Attribute) and isinstance(e.value.value, ast.Name) \
+            and e.value.value.id == "self" and e.value.attr in sound_memos
+    foreign = [norm(r) for r in rets if not (r is last or r.value is None or isinstance(r.value, ast.Constant)
+                                             or _from_sound_memo(r.value))]
+    run.obligation(rid, "AggregateBase.fc_factor", not foreign and isinstance(last, ast.Return), key="computed-result",
+                   message="fc_factor returns a value it did not compute in this call (%s): the overlaps then do not "
+                           "follow later changes of the mode parameters" % foreign, loc=f.loc(),
+                   sample={"returns": len(rets)})
+    bad = [(a, k, i) for a, k, i, _ in memo if i]
+    run.obligation(rid, "AggregateBase.fc_factor", not bad, key="memo-keyed-by-values",
+                   message="results are remembered on self under keys that do not determine the overlap %s: after a "
+                           "change of a mode's shift or number of levels the remembered factor is returned for the "
+                           "new parameters" % [("self." + a, k, "key uses " + ", ".join(i)) for a, k, i in bad],
+                   loc=f.loc(bad and memo[0][3]) if bad else f.loc(), sample={"memo_stores": len(memo)})
     ok = any(isinstance(n, ast.If) and norm(n.test) == "not len(sta1) == len(sta2)" and
              any(isinstance(x, ast.Raise) for x in n.body) for n in f.node.body)
     run.obligation(rid, "AggregateBase.fc_factor", ok, key="same-modes",
